@@ -304,10 +304,135 @@ impl Space for Adds {
     }
 }
 
+/// Rounded differences of zoned date-times and Duration round / total relative to a zoned
+/// date-time, against DifferenceZonedDateTimeWithRounding transcribed over the zone model (r5z).
+struct ZonedRounding {
+    zones: Vec<ZoneCase>,
+    np: usize,
+}
+
+const ROUND_CELLS: [(usize, usize, i64); 14] = [(0, 0, 1), (0, 1, 1), (1, 1, 1), (1, 3, 1), (2, 2, 1), (2, 3, 1), (3, 3, 1), (3, 3, 2), (3, 4, 1), (3, 4, 12), (3, 5, 30), (0, 4, 1), (4, 4, 1), (4, 5, 15)];
+
+fn rel_durations() -> Vec<[i64; 10]> {
+    let mut v = vec![];
+    for f in [
+        [0, 0, 0, 1, 0, 0, 0, 0, 0, 0],
+        [0, 0, 0, 0, 12, 0, 0, 0, 0, 0],
+        [0, 0, 0, 0, 23, 0, 0, 0, 0, 0],
+        [0, 0, 0, 0, 24, 0, 0, 0, 0, 0],
+        [0, 0, 0, 0, 25, 0, 0, 0, 0, 0],
+        [0, 0, 0, 1, 12, 0, 0, 0, 0, 0],
+        [0, 0, 0, 0, 36, 30, 0, 0, 0, 1],
+        [0, 1, 0, 0, 0, 0, 0, 0, 0, 0],
+        [0, 1, 0, 15, 11, 0, 0, 0, 0, 0],
+        [1, 0, 0, 0, 0, 0, 0, 0, 0, 0],
+        [0, 0, 1, 3, 11, 59, 59, 999, 999, 999],
+        [0, 0, 0, 0, 0, 90, 0, 0, 0, 0],
+    ] {
+        v.push(f);
+        v.push(f.map(|x: i64| -x));
+    }
+    v
+}
+
+impl Space for ZonedRounding {
+    fn name(&self) -> String {
+        "c14.zoned_rounding".into()
+    }
+    fn len(&self) -> u64 {
+        (self.zones.len() * self.np) as u64
+    }
+    fn block(&self) -> u64 {
+        4
+    }
+    fn eval(&self, i: u64, out: &mut Out) {
+        use tmc_ref::r4::Mode as RMode;
+        use tmc_ref::r5::DErr;
+        use tmc_ref::r5z;
+        let zc = &self.zones[i as usize / self.np];
+        let pts = instants(zc);
+        let ia = i as usize % self.np;
+        if ia >= pts.len() {
+            return;
+        }
+        let a = pts[ia];
+        let prov = SynthProvider { name: ZONE_NAME, zone: &zc.zone };
+        let za = zdt(a);
+        let modes = [RMode::Trunc, RMode::Ceil, RMode::Floor, RMode::HalfExpand, RMode::HalfEven];
+        let em = |e: DErr| match e {
+            DErr::Range => ErrorKind::Range,
+            DErr::SpecAssert => ErrorKind::Assert,
+        };
+        // rounded until / since against every other instant of the rule set
+        for b in pts.iter().step_by(3) {
+            let crosses = zc.zone.offset_at(a) != zc.zone.offset_at(*b);
+            let zb = zdt(*b);
+            for (largest, smallest, inc) in ROUND_CELLS {
+                for mode in modes {
+                    let attrs = || vec![("zone", zc.desc.clone()), ("a", local_text(zc, a)), ("b", local_text(zc, *b)), ("largest", largest.to_string()), ("smallest", smallest.to_string()), ("increment", inc.to_string()), ("mode", mode.name().to_string()), ("crosses_transition", crosses.to_string()), ("change_size", zc.gap_class().to_string()), ("day_probe", zc.day_probe().to_string())];
+                    let model = r5z::until_zoned(&zc.zone, a, *b, largest, inc, smallest, mode).map_err(em);
+                    if model == Err(ErrorKind::Assert) {
+                        out.unjudged += 1;
+                        continue;
+                    }
+                    if crosses && smallest >= 3 {
+                        out.nontrivial += 1;
+                    }
+                    let settings = diff(Some(ALL_UNITS[largest]), Some(ALL_UNITS[smallest]), Some(imode(mode)), Some(inc as u32));
+                    let got = call(|| za.until_with_provider(&zb, settings, &prov));
+                    out.lockstep("ZonedDateTime::until(rounded)", &model, &got, |m, x| dur_i128(x) == *m, attrs);
+                    let model_since = r5z::until_zoned(&zc.zone, a, *b, largest, inc, smallest, mode.negate()).map(|f| f.map(|x| -x)).map_err(em);
+                    if model_since != Err(ErrorKind::Assert) {
+                        let got = call(|| za.since_with_provider(&zb, settings, &prov));
+                        out.lockstep("ZonedDateTime::since(rounded)", &model_since, &got, |m, x| dur_i128(x) == *m, attrs);
+                    }
+                }
+            }
+        }
+        // Duration round / total relative to this zoned date-time
+        for f in rel_durations() {
+            let ff = f.map(|x| x as f64);
+            let Ok(d) = dur10(ff) else { continue };
+            for (largest, smallest, inc) in ROUND_CELLS {
+                for mode in modes {
+                    let attrs = || vec![("zone", zc.desc.clone()), ("relative_to", local_text(zc, a)), ("duration", format!("{f:?}")), ("largest", largest.to_string()), ("smallest", smallest.to_string()), ("increment", inc.to_string()), ("mode", mode.name().to_string()), ("change_size", zc.gap_class().to_string()), ("day_probe", zc.day_probe().to_string())];
+                    let model = r5z::round_relative_zoned(&zc.zone, &ff, a, largest, inc, smallest, mode).map_err(em);
+                    if model == Err(ErrorKind::Assert) {
+                        out.unjudged += 1;
+                        continue;
+                    }
+                    let got = call(|| d.round_with_provider(round_opts(Some(ALL_UNITS[largest]), Some(ALL_UNITS[smallest]), Some(imode(mode)), Some(inc as u32)), Some(RelativeTo::ZonedDateTime(za.clone())), &prov));
+                    out.lockstep("Duration::round(relativeTo zoned)", &model, &got, |m, x| dur_i128(x) == *m, attrs);
+                }
+            }
+            for unit in 0..10usize {
+                let attrs = || vec![("zone", zc.desc.clone()), ("relative_to", local_text(zc, a)), ("duration", format!("{f:?}")), ("unit", unit.to_string()), ("change_size", zc.gap_class().to_string()), ("day_probe", zc.day_probe().to_string())];
+                match r5z::total_relative_zoned(&zc.zone, &ff, a, unit) {
+                    Err(DErr::SpecAssert) => out.unjudged += 1,
+                    Err(DErr::Range) => {
+                        let got = call(|| d.total_with_provider(ALL_UNITS[unit], Some(RelativeTo::ZonedDateTime(za.clone())), &prov));
+                        out.lockstep("Duration::total(relativeTo zoned)", &Err::<(i128, i128), _>(ErrorKind::Range), &got, |_, _| false, attrs);
+                    }
+                    Ok((num, den)) => {
+                        let got = call(|| d.total_with_provider(ALL_UNITS[unit], Some(RelativeTo::ZonedDateTime(za.clone())), &prov));
+                        out.lockstep("Duration::total(relativeTo zoned)", &Ok((num, den)), &got, |m, x| tmc_ref::r5::close_to_rational(x.as_inner(), m.0, m.1), attrs);
+                    }
+                }
+            }
+        }
+        if out.want_sample() && ia == 0 {
+            out.sample(json!({"zone": zc.desc, "relative_to": local_text(zc, a), "cells": ROUND_CELLS.len(), "durations": rel_durations().len()}));
+        }
+    }
+    fn describe(&self) -> serde_json::Value {
+        json!({"rule_sets": self.zones.len(), "instants_per_rule_set_max": self.np, "option_cells (largest, smallest, increment)": ROUND_CELLS.iter().map(|c| format!("{c:?}")).collect::<Vec<_>>(), "modes": 5, "durations": rel_durations().len()})
+    }
+}
+
 pub fn spaces(env: &Env) -> Vec<Box<dyn Space>> {
     let zs = zones(env.tier);
     let np = zs.iter().map(|z| instants(z).len()).max().unwrap_or(0);
-    vec![Box::new(Adds { zones: zs.clone(), np, durs: add_durations() }), Box::new(Pairs { zones: zs, np })]
+    vec![Box::new(Adds { zones: zs.clone(), np, durs: add_durations() }), Box::new(Pairs { zones: zs.clone(), np }), Box::new(ZonedRounding { zones: zs, np })]
 }
 
 pub fn run(env: &Env) -> i32 {
